@@ -9,6 +9,6 @@ EXPLANATION = ("Proved (loop-free, full domain): each sorter comparator returns 
 C_FUNCS = [("tables.c", "tsk_table_collection_check_integrity"), ("tables.c", "cmp_edge"), ("tables.c", "cmp_site"),
            ("tables.c", "cmp_mutation"), ("tables.c", "cmp_mutation_canonical"), ("tables.c", "cmp_migration")]
 LEMMAS = ["lemmas.orders:strict_weak_orders"]
-BOUNDED = [{"name": "sort_content", "module": "standins.c07_sort", "timeout": 900}]
+BOUNDED = [{"name": "sort_content", "module": "standins.c07_sort", "timeout": 900, "asan": "thorough"}]
 UNVERIFIED = ["cmp_* comparators, tsk_table_sorter_sort_*, deduplicate_sites, compute_mutation_parents (bounded only)"]
 ASSUMPTIONS = []
